@@ -111,6 +111,7 @@ class Forest:
         self.debug_loc = loc or b""
         self.debug_loclists = loclists or b""
         self.debug_ranges = ranges or b""
+        self.debug_line = b""
         self.strtab = {}                     # .debug_str
         self.line_strtab = {}
         self.abbrev_tables = {}              # table id -> {key: code}; filled by layout
@@ -302,7 +303,8 @@ class Writer:
             return p("I", (args[0].offset - u.offset) if resolve and isinstance(args[0], Die) else 0)
         if code in (O["implicit_pointer"], O["GNU_implicit_pointer"]):
             off = args[0].offset if resolve and isinstance(args[0], Die) else 0
-            return p("I", off) + sleb(args[1])
+            # like DW_FORM_ref_addr: address sized in DWARF 2, offset sized from DWARF 3 on
+            return p(("Q" if u.addr_size == 8 else "I") if u.version == 2 else "I", off) + sleb(args[1])
         if code in (O["entry_value"], O["GNU_entry_value"]):
             b = self.enc_expr(u, args[0], resolve)
             return uleb(len(b)) + b
@@ -373,6 +375,8 @@ class Writer:
             secs.append((b".debug_loclists", f.debug_loclists, 1))
         if f.debug_ranges:
             secs.append((b".debug_ranges", f.debug_ranges, 1))
+        if f.debug_line:
+            secs.append((b".debug_line", f.debug_line, 1))
         return build_elf(f.elfclass, f.big, f.machine, secs, f.symbols)
 
 
